@@ -4,6 +4,7 @@
   Proofs/C20.lean; construction goes through the shared initializer model and its C02 theorems.
 -/
 import AttrsModel.Proofs.C20
+import AttrsModel.Proofs.SrcSetters
 
 namespace Attrs.C20
 open Attrs.Init
@@ -527,5 +528,20 @@ example : constructPlan initFalseCls true
 example : ∃ cls f, (∃ e ∈ assignPlan cls true f, isValidator e = true) :=
   ⟨{ isDefine := true, clsOnSet := .unset, kwOnly := false, pre := .none, post := false, fields := [] },
    { name := "x", validators := 1, conv := false, onSet := .unset, init := true, dflt := .none }, by decide⟩
+
+/-! ### T1b: `setters.validate` as written in /repo's source on this run -/
+
+/-- **C20_source_setters_validate_honours_switch**: `setters.validate`, translated from the current source
+    (`Gen.setters_validate`, regenerated on every run), reads the global switch at the time of the assignment: it calls
+    the field's validator — exactly once, with `(instance, attrib, new_value)` — iff the switch is on, never when it is
+    off or the field has none, and in every case returns the new value unchanged. -/
+theorem C20_source_setters_validate_honours_switch (env : Py.Env) (ext : Py.Ext) (inst attrib nv : Py.PV)
+    (run : Bool) (k : Nat) (hrun : env "_config._run_validators" = Py.vBool run) :
+    (ext "getattr" [attrib, Py.vStr "validator"] = Py.vFn k →
+      Gen.setters_validate env ext inst attrib nv [] =
+        .ok (nv, if run then [Py.Eff.mk "call" [Py.vFn k, inst, attrib, nv]] else [])) ∧
+    (ext "getattr" [attrib, Py.vStr "validator"] = Py.vNone →
+      Gen.setters_validate env ext inst attrib nv [] = .ok (nv, [])) :=
+  Src.setters_validate_spec env ext inst attrib nv run k hrun
 
 end Attrs.C20
